@@ -5,7 +5,6 @@ import (
 	"fmt"
 	"html"
 	"strings"
-	"unicode/utf8"
 
 	"github.com/textwire/textwire/v2/ctx"
 	"github.com/textwire/textwire/v2/fail"
@@ -149,9 +148,10 @@ func strTruncateFunc(_ *ctx.EvalCtx, receiver object.Object, args ...object.Obje
 	}
 
 	val := receiver.(*object.Str).Value
-	limit := int(firstArg.Value)
+	chars := []rune(val)
+	limit := max(int(firstArg.Value), 0)
 
-	if limit >= utf8.RuneCountInString(val) {
+	if limit >= len(chars) {
 		return &object.Str{Value: val}, nil
 	}
 
@@ -168,7 +168,7 @@ func strTruncateFunc(_ *ctx.EvalCtx, receiver object.Object, args ...object.Obje
 		}
 	}
 
-	newVal := val[:firstArg.Value] + ellipsis
+	newVal := string(chars[:limit]) + ellipsis
 
 	return &object.Str{Value: newVal}, nil
 }
